@@ -17,59 +17,60 @@ Definition is_id_delim (c : ascii) : bool :=
   Ascii.eqb c "`"%char || Ascii.eqb c """"%char || Ascii.eqb c "["%char || Ascii.eqb c "]"%char.
 Definition first_is_delim (s : string) : bool := match s with String c _ => is_id_delim c | _ => false end.
 
-Definition step (s : string) (a b : ascii) : string :=
-  if (match first_c s with Some c => Ascii.eqb c a | None => false end)
-     && (match last_char s with Some c => Ascii.eqb c b | None => false end)
-  then take (String.length s - 2) (drop 1 s) else s.
+Definition hit (s : string) (a b : ascii) : bool :=
+  (match first_c s with Some c => Ascii.eqb c a | None => false end)
+  && (match last_char s with Some c => Ascii.eqb c b | None => false end).
+Definition strip1 (s : string) : string := take (String.length s - 2) (drop 1 s).
 
 Lemma normalize_id_unfold s :
   normalize_id s = if (2 <? String.length s)%nat
-                   then step (step (step s "`"%char "`"%char) """"%char """"%char) "["%char "]"%char else s.
+                   then if hit s "`"%char "`"%char then strip1 s
+                        else if hit s """"%char """"%char then strip1 s
+                        else if hit s "["%char "]"%char then strip1 s else s
+                   else s.
 Proof. reflexivity. Qed.
 
 (* a name that does not start with a delimiter is left alone *)
-Lemma step_no_delim s a b : first_is_delim s = false -> is_id_delim a = true -> step s a b = s.
+Lemma hit_no_delim s a b : first_is_delim s = false -> is_id_delim a = true -> hit s a b = false.
 Proof.
-  unfold step, first_is_delim. destruct s as [|c r]; simpl; [reflexivity|]. intros Hc Ha.
+  unfold hit, first_is_delim. destruct s as [|c r]; simpl; [reflexivity|]. intros Hc Ha.
   destruct (Ascii.eqb_spec c a) as [->|_]; [congruence|reflexivity].
 Qed.
-Lemma step_other_first c r a b : Ascii.eqb c a = false -> step (String c r) a b = String c r.
-Proof. intro H. unfold step. cbn [first_c]. rewrite H. reflexivity. Qed.
-
 Theorem normalize_plain : forall s, first_is_delim s = false -> normalize_id s = s.
 Proof.
   intros s H. rewrite normalize_id_unfold. destruct (2 <? String.length s)%nat; [|reflexivity].
-  rewrite (step_no_delim s "`" "`" H eq_refl), (step_no_delim s """" """" H eq_refl), (step_no_delim s "[" "]" H eq_refl).
+  rewrite (hit_no_delim s "`" "`" H eq_refl), (hit_no_delim s """" """" H eq_refl), (hit_no_delim s "[" "]" H eq_refl).
   reflexivity.
 Qed.
 
-(* one pair of outer delimiters around a non-empty name that does not itself start with a delimiter *)
-Lemma step_strip q q' x : step (String q (x ++ String q' "")) q q' = x.
+Lemma hit_pair q q' x : hit (String q (x ++ String q' "")) q q' = true.
 Proof.
-  unfold step. cbn [first_c]. rewrite Ascii.eqb_refl.
+  unfold hit. cbn [first_c]. rewrite Ascii.eqb_refl.
   assert (E : last_char (String q (x ++ String q' "")) = Some q').
   { change (String q (x ++ String q' "")) with ((String q x) ++ String q' ""). apply last_char_snoc. }
-  rewrite E, Ascii.eqb_refl. cbn [andb drop String.length].
-  rewrite length_app. cbn [String.length]. replace (S (String.length x + 1) - 2)%nat with (String.length x) by lia.
-  apply take_app_exact.
+  rewrite E, Ascii.eqb_refl. reflexivity.
+Qed.
+Lemma hit_other_first c r a b : Ascii.eqb c a = false -> hit (String c r) a b = false.
+Proof. intro H. unfold hit. cbn [first_c]. rewrite H. reflexivity. Qed.
+Lemma strip1_pair q q' x : strip1 (String q (x ++ String q' "")) = x.
+Proof.
+  unfold strip1. cbn [drop String.length]. rewrite length_app. cbn [String.length].
+  replace (S (String.length x + 1) - 2)%nat with (String.length x) by lia. apply take_app_exact.
 Qed.
 
+(* EXACTLY one pair of outer delimiters is removed, whatever the name inside looks like (it may itself be delimited) *)
 Theorem normalize_strips_one_pair : forall q q' x,
   (q = "`"%char /\ q' = "`"%char) \/ (q = """"%char /\ q' = """"%char) \/ (q = "["%char /\ q' = "]"%char) ->
-  x <> "" -> first_is_delim x = false ->
-  normalize_id (String q (x ++ String q' "")) = x.
+  x <> "" -> normalize_id (String q (x ++ String q' "")) = x.
 Proof.
-  intros q q' x Hq Hne Hx. rewrite normalize_id_unfold.
+  intros q q' x Hq Hne. rewrite normalize_id_unfold.
   assert (Hl : (2 <? String.length (String q (x ++ String q' "")))%nat = true).
   { simpl. rewrite length_app. simpl. destruct x; [congruence|]. simpl. apply Nat.ltb_lt. lia. }
   rewrite Hl.
   destruct Hq as [[-> ->]|[[-> ->]|[-> ->]]].
-  - rewrite step_strip. rewrite (step_no_delim x """" """" Hx eq_refl), (step_no_delim x "[" "]" Hx eq_refl). reflexivity.
-  - rewrite (step_other_first """" _ "`" "`" eq_refl).
-    rewrite step_strip. rewrite (step_no_delim x "[" "]" Hx eq_refl). reflexivity.
-  - rewrite (step_other_first "[" _ "`" "`" eq_refl).
-    rewrite (step_other_first "[" _ """" """" eq_refl).
-    apply step_strip.
+  - rewrite hit_pair. apply strip1_pair.
+  - rewrite (hit_other_first """" _ "`" "`" eq_refl), hit_pair. apply strip1_pair.
+  - rewrite (hit_other_first "[" _ "`" "`" eq_refl), (hit_other_first "[" _ """" """" eq_refl), hit_pair. apply strip1_pair.
 Qed.
 
 (* the p_id action *)
